@@ -242,12 +242,21 @@ pub fn check_find_and_iter(
         rep.eval();
         rep.tally("iterator_method_cases");
         let exp_o = if overl { Some(o.overlapping(hay, span.0, span.1, false).len()) } else { None };
-        let want = (exp_it.len(), exp_it.last().copied(), exp_it.get(k).copied(), exp_o);
+        let want = crate::cfg::IterDigest {
+            count: exp_it.len(),
+            last: exp_it.last().copied(),
+            nth: exp_it.get(k).copied(),
+            ocount: exp_o,
+            via_for_each: exp_it.clone(),
+            direct_for_each: exp_it.clone(),
+            via_fold: exp_it.clone(),
+            hint_ok: true,
+        };
         match r {
             Ok(gotm) if gotm == want => {}
             Ok(gotm) => rep.violation(
                 &sig("iter", &b.cfg, anchored, pats, "iterator_methods"),
-                format!("count()/last()/nth({})/overlapping count() = {:?}, the sequence yielded by next() gives {:?}", k, gotm, want),
+                format!("count / last / nth({}) / for_each / fold / size_hint / overlapping count = {:?}, the sequence yielded by next() gives {:?}", k, gotm, want),
                 case_json(pats, &b.cfg, hay, span, anchored, "iter"),
             ),
             Err(e) => rep.violation(
